@@ -49,3 +49,38 @@ Theorem C18_cbor_next_total : forall fuel d s,
                  (length (d_script d') <= length (d_script d))%nat).
 Proof. exact ParseVisitorProofs.C18_cbor_next_total. Qed.
 Print Assumptions C18_cbor_next_total.
+
+(* UBJSON pull decoder.  Over ANY reader script Next never crashes (C18_ubj_no_panic); under the
+   guard of C03 (no '$' directly followed by Z, T or F in what is still to come - the recorded
+   finding F2) Next returns, and a nil verdict means the state stack is empty again and at
+   least one byte was consumed; two well-behaved scripts (no read error except io.EOF at the
+   end, with or without data) carrying the same data produce the same complete event sequence
+   and the same final verdict, whatever their read sizes.
+   PARTIAL: which events are delivered by which Next call (one value per call) is decided by
+   the run-time part (kind ubjdec). *)
+From SF Require Ubjson.Parse Ubjson.ParseSafety Ubjson.ParseVisitorProofs.
+Module UP := SF.Ubjson.Parse.
+Module UV := SF.Ubjson.ParseVisitorProofs.
+Theorem C18_ubj_no_panic : forall fuel sc s w, UP.udec_next fuel (UV.ureader_dec sc) s <> Panic w.
+Proof. exact UV.C18_ubj_reader_no_panic. Qed.
+Print Assumptions C18_ubj_no_panic.
+
+Theorem C18_ubj_next_total : forall fuel d s,
+  UV.udec_good d -> (UV.umeasure d < fuel)%nat ->
+  exists d' s' e, UP.udec_next fuel d s = Ok (d', s', e) /\
+    (e = UP.unilE -> UV.udec_good d' /\ UP.up_stack (UP.ud_p d') = [] /\
+                  (length (UV.urem d') <= length (UV.urem d))%nat /\
+                  (UP.u_t (UP.up_cur (UP.ud_p d)) = UP.tNext -> (length (UV.urem d') < length (UV.urem d))%nat) /\
+                  (UV.umeasure d' <= UV.umeasure d)%nat).
+Proof. exact UV.C18_ubj_next_total. Qed.
+Print Assumptions C18_ubj_next_total.
+
+Theorem C18_ubj_scripts_same_data : forall sc1 sc2 s fuel,
+  UV.uscript_okb sc1 = true -> UV.uscript_okb sc2 = true ->
+  concat (map fst sc1) = concat (map fst sc2) ->
+  SF.Ubjson.ParseSafety.no_zero_typed (concat (map fst sc1)) = true ->
+  (2 * length sc1 + 1 <= fuel)%nat -> (2 * length sc2 + 1 <= fuel)%nat ->
+  exists o, UV.udrain (S (length (concat (map fst sc1)))) fuel (UV.ureader_dec sc1) s = Ok o /\
+            UV.udrain (S (length (concat (map fst sc1)))) fuel (UV.ureader_dec sc2) s = Ok o.
+Proof. exact UV.C18_ubj_scripts_same_data. Qed.
+Print Assumptions C18_ubj_scripts_same_data.
